@@ -204,6 +204,7 @@ def build(reg, src):
                      confirmed=False, replay=dict(kind='undefined')),
                 dict(name='klongpy/monads.py::eval_monad_undefined#tests-identity', ok=ident, backend='ast-structural', detail='identity test found' if ident else 'no `is` test found')]
     reg.extra_checks.append(check_undefined)
+    reg.extra_checks.append(lambda ctx: frame_written_atomically(ctx))
     from replay import c13 as rp
     reg.extra_checks.append(rp.confirm_undefined)
     reg.replays.append((r'KGRemoteFnProxy|NetworkClientDictHandle|execute_server_command', rp.replay_remote_values))
@@ -248,3 +249,35 @@ def configure(eng):
     eng.hooks['new:KGRemoteFnCall'] = mk_rec('fncall')
     eng.hooks['new:KGRemoteDictGetCall'] = mk_rec('dictget')
     eng.hooks['new:KGRemoteDictSetCall'] = mk_rec('dictset')
+
+
+def frame_written_atomically(ctx):
+    """one connection has several senders (NetworkClient.call from the interpreter thread, the listen loop's replies): a frame stays in
+    one piece only if stream_send_msg hands the WHOLE frame to the writer in one write() call before its first await (StreamWriter.write
+    never suspends; everything between two awaits is atomic on the event loop).  Structural obligation on the real function."""
+    import ast
+    src = ctx['src']
+    K_ = 'klongpy/sys_fn_ipc.py::stream_send_msg'
+    fn = src.find(K_)
+    if fn is None:
+        return [dict(name=K_ + '#frame-written-in-one-piece', ok=False, undecided=True, backend='ast-structural', detail='function not found')]
+    writes = [n for n in ast.walk(fn) if isinstance(n, ast.Call) and isinstance(n.func, ast.Attribute) and n.func.attr in ('write', 'writelines')]
+    loops = [n for n in ast.walk(fn) if isinstance(n, (ast.For, ast.While, ast.AsyncFor))]
+    in_loop = [w for w in writes if any(w in list(ast.walk(l)) for l in loops)]
+    awaits = [n for n in ast.walk(fn) if isinstance(n, ast.Await)]
+    first_write = min((w.lineno, w.col_offset) for w in writes) if writes else None
+    await_before = [a for a in awaits if first_write and (a.lineno, a.col_offset) < first_write]
+    whole = len(writes) == 1 and 'encode_message' in ast.unparse(writes[0])
+    ok = bool(writes) and whole and not in_loop and not await_before
+    why = ('the frame (encode_message(...)) is passed to one write() call before the first await' if ok else
+           f"{len(writes)} write call(s), {len(in_loop)} of them in a loop, {len(await_before)} await(s) before the first write: a second sender can write between the pieces")
+    row = dict(name=K_ + '#frame-written-in-one-piece', ok=ok, backend='ast-structural', detail=why, confirmed=False)
+    if not ok:
+        from pyvc.run import run_replay
+        import replay.c13 as rp13
+        r = run_replay(rp13.replay_concurrent_senders, {}, row['name'], timeout_s=60)
+        row['confirmed'] = bool(r.get('confirmed'))
+        row['replay'] = dict(result=r)
+        if r.get('confirmed'):
+            row['detail'] += f" | real code: {r.get('detail')}"
+    return [row]
